@@ -472,7 +472,10 @@ class HwExpHistogram(Elaboratable, HwMetric):
                     m.d.av_comb += bucket_idx.eq(i)
 
             for i in range(len(self.buckets)):
-                if i == 0:
+                if self.bucket_count == 1:
+                    # The only bucket has a range [0, +inf).
+                    should_incr = C(1)
+                elif i == 0:
                     # The first bucket has a range [0, 1).
                     should_incr = sample == 0
                 elif i == self.bucket_count - 1:
